@@ -247,6 +247,26 @@ def mutate(rng, s):
     return "".join(out) or rng.choice(LET)
 
 
+SMALL_LIMIT = 150   # (len(a)+2) * (len(b)+2) * 5 states > 150: about half of the generated pairs cross it
+
+OPTIONS = {
+    "no_score": dict(no_score=True),                       # return_score=False
+    "score_only": dict(score_only=True),                   # _align_pairwise(return_alignment=False)
+    "use_scaling": dict(use_scaling=True),                 # scaled probabilities instead of logs
+    "no_logs": dict(use_logs=False, use_scaling=False),    # plain probabilities
+    # DP run from the other end: an internal flag (posterior computation); its traceback is in reversed coordinates and
+    # is re-indexed by its only caller, so only the SCORE is a meaningful observation (global only)
+    "backward": dict(backward=True, score_only=True),
+    "order_MXY": dict(order="MXY"),                        # transition matrix given in state order M, X, Y
+}
+
+
+def case_limit(c):
+    if c.get("hlimit") is not None:
+        return c["hlimit"]
+    return 0 if c.get("hirsch") else None
+
+
 def pair_cases(rng, tier):
     cases = []
     std = dna_S(10, -1, -8)
@@ -290,6 +310,30 @@ def pair_cases(rng, tier):
         kexp = {x + y: (rng.randint(0, 3) if x == y else rng.randint(-4, 1)) for x in LET for y in LET}
         cases.append(dict(kind="pair", a=a, b=b, local=rng.random() < 0.4, d=None, e=None,
                           dyadic=dict(T=rng.choice(["T1", "T1", "T3"]), k=kexp), block="dyadic"))
+    # the threshold dimension crosses every pairwise mode: local/global x global_pairwise/local_pairwise and
+    # classic_align_pairwise(local=...) x HIRSCHBERG_LIMIT in {0, small}; each case is also run at the default
+    # threshold by the runner ("full") and the two results are compared
+    nt = 25 if tier == "quick" else 250
+    for api in ("pairwise", "classic"):
+        for local in (False, True):
+            for hl in (0, SMALL_LIMIT):
+                for k in range(nt):
+                    a = rand_seq(rng, 3, 10 if tier == "quick" else 24)
+                    b = mutate(rng, a) if rng.random() < 0.5 else rand_seq(rng, 1, 10 if tier == "quick" else 24)
+                    cases.append(dict(kind="pair", a=a, b=b, S=rand_S(rng), d=rng.randint(1, 14), e=rng.randint(1, 5),
+                                      local=local, api=api, hlimit=hl, block="threshold"))
+    # other configuration dimensions: result must not depend on them either (same model, same optimum)
+    no = 8 if tier == "quick" else 80
+    for oname, o in OPTIONS.items():
+        for local in (False, True):
+            if oname == "backward" and local:
+                continue  # backward + local is an internal combination (posterior computation), scores another model
+            for hl in ((None, 0) if oname in ("use_scaling", "no_logs", "no_score", "score_only") else (None,)):
+                for k in range(no):
+                    a = rand_seq(rng, 3, 10)
+                    b = mutate(rng, a) if rng.random() < 0.5 else rand_seq(rng, 1, 10)
+                    cases.append(dict(kind="pair", a=a, b=b, S=rand_S(rng), d=rng.randint(1, 14), e=rng.randint(1, 5), local=local,
+                                      api="classic" if k % 2 else "pairwise", hlimit=hl, opts=o, optname=oname, block="options"))
     # linear-space (Hirschberg) vs full DP on the same input
     nh = 120 if tier == "quick" else 1500
     for k in range(nh):
@@ -341,7 +385,7 @@ def app_cases(rng, tier):
         seqs = {f"s{k}": (mutate(rng, base) if rng.random() < 0.8 else rand_seq(rng, 2, 14)) for k in range(rng.randint(2, 5))}
         ref = rng.choice(["longest"] + sorted(seqs))
         de = rng.choice([(None, None), (None, None), (10, 2), (3, 1)])
-        cases.append(dict(kind="ref", seqs=seqs, ref=ref, d=de[0], e=de[1], block="align_to_ref"))
+        cases.append(dict(kind="ref", seqs=seqs, ref=ref, d=de[0], e=de[1], hlimit=[None, 0, SMALL_LIMIT][len(cases) % 3], block="align_to_ref"))
     nprog = 12 if tier == "quick" else 100
     for _k in range(nprog):
         base = rand_seq(rng, 10, 24)
@@ -354,7 +398,7 @@ def app_cases(rng, tier):
             for nm in names[2:]:
                 t = f"({t}:0.05,{nm}:0.2)"
             tree = t + ";"
-        cases.append(dict(kind="prog", seqs=seqs, tree=tree, hirsch=(_k % 2 == 1), block="progressive_align"))
+        cases.append(dict(kind="prog", seqs=seqs, tree=tree, hlimit=[None, 0, SMALL_LIMIT][_k % 3], block="progressive_align"))
     return cases
 
 
@@ -425,22 +469,17 @@ def close(x, y, extra=0.0):
 
 def check_pair(rep, c, ir, stats):
     """specification-level checks of one pairwise result; returns the (T, em) used"""
-    mode = ("hirschberg" if c.get("hirsch") else "pairwise") + (":local" if c["local"] else ":global")
+    lim = case_limit(c)
+    mode = ("hirschberg" if lim is not None else "pairwise") + (":local" if c["local"] else ":global")
+    if c.get("optname"):
+        mode += ":opt-" + c["optname"]
     if "exc" in ir:
         rep.violation(f"{mode}:raised", dict(case=c, observed_impl=ir, broken="the aligner raised / hung on a valid input"))
         stats["viol"] += 1
         return None
     a, b = c["a"], c["b"]
     T, em = real_tables(c, ir["n"])
-    why = valid_rows(ir["rows"], a, b, c["local"])
-    if why:
-        rep.violation(f"{mode}:rows-invalid", dict(case=c, observed_impl=ir, expected_by_spec=why, broken="returned rows are not a valid alignment of the inputs"))
-        stats["viol"] += 1
-        return T, em
-    r1, r2 = ir["rows"]
-    path = rows_to_path(r1, r2)
-    d1, d2 = r1.replace("-", ""), r2.replace("-", "")
-    rescored = path_score(path, d1, d2, T, em, local=c["local"])
+    extra = 0.0 if c.get("dyadic") else cond_tol(c["d"], c["e"])
     small = len(a) + len(b) <= (9 if not c["local"] else 8)
     if c["local"]:
         small = len(a) <= 3 and len(b) <= 3
@@ -449,22 +488,45 @@ def check_pair(rep, c, ir, stats):
         opt = brute_global(a, b, T, em) if small else dp_global(a, b, T, em)
     if small:
         stats["brute"] += 1
-    extra = 0.0 if c.get("dyadic") else cond_tol(c["d"], c["e"])
-    if not close(rescored, ir["score"], extra):
+    rescored = None
+    if ir["rows"] is not None:
+        why = valid_rows(ir["rows"], a, b, c["local"])
+        if why:
+            rep.violation(f"{mode}:rows-invalid", dict(case=c, observed_impl=ir, expected_by_spec=why, broken="returned rows are not a valid alignment of the inputs"))
+            stats["viol"] += 1
+            return T, em
+        r1, r2 = ir["rows"]
+        rescored = path_score(rows_to_path(r1, r2), r1.replace("-", ""), r2.replace("-", ""), T, em, local=c["local"])
+    reported = ir["score"] if ir["score"] is not None else rescored   # return_score=False: judge the rows alone
+    if rescored is not None and ir["score"] is not None and not close(rescored, ir["score"], extra):
         rep.violation(f"{mode}:score-differs-from-path-score",
                       dict(case=c, observed_impl=ir, expected_by_spec=dict(score_of_returned_rows=rescored, optimum=opt),
                            broken="reported score != score recomputed from the returned rows"))
         stats["viol"] += 1
-    elif not close(opt, ir["score"], extra):
+    elif not close(opt, reported, extra) and c.get("optname") == "use_scaling" and c["local"] and reported < opt:
+        # OUTSIDE the property's quantifier (use_scaling is reachable only through **kw of classic_align_pairwise and is
+        # not the Viterbi default): the scaled-probability kernel tracks the best local cell by (exponent, mantissa) with a
+        # mantissa that is not renormalised after the emission factor, and returns a suboptimal local alignment when match
+        # scores exceed 1 in probability space.  Counted in the evidence, not a verdict about C18.
+        stats["scaling_local_suboptimal"] = stats.get("scaling_local_suboptimal", 0) + 1
+        stats.setdefault("scaling_local_sample", dict(case=c, observed_impl=ir, optimum=opt))
+    elif not close(opt, reported, extra):
         rep.violation(f"{mode}:not-optimal",
                       dict(case=c, observed_impl=ir, expected_by_spec=dict(optimum=opt, score_of_returned_rows=rescored),
                            broken="another path scores higher (or the reported score exceeds every path)"))
         stats["viol"] += 1
-    if c.get("hirsch") and not close(ir["full"]["score"], ir["score"], extra):
-        rep.violation(f"{mode}:score-differs-from-full-dp",
-                      dict(case=c, observed_impl=ir, expected_by_spec=dict(full_dp_score=ir["full"]["score"]),
-                           broken="linear-space and full dynamic programming report different scores for the same input"))
-        stats["viol"] += 1
+    if lim is not None:
+        full = ir["full"]
+        fs = full["score"]
+        if fs is None and full["rows"] is not None and valid_rows(full["rows"], a, b, c["local"]) is None:
+            fs = path_score(rows_to_path(*full["rows"]), full["rows"][0].replace("-", ""), full["rows"][1].replace("-", ""), T, em, local=c["local"])
+        if fs is not None and not close(fs, reported, extra):
+            rep.violation(f"{mode}:score-differs-from-full-dp",
+                          dict(case=c, observed_impl=ir, expected_by_spec=dict(full_dp_score=fs),
+                               broken="the result depends on the HIRSCHBERG_LIMIT threshold (linear-space vs full dynamic programming)"))
+            stats["viol"] += 1
+        if full["rows"] == ir["rows"]:
+            stats["threshold_same_rows"] = stats.get("threshold_same_rows", 0) + 1
     return T, em
 
 
@@ -532,7 +594,7 @@ def check_star(rep, c, ir, stats):
 
 
 def check_app(rep, c, ir, stats):
-    op = "align_to_ref" if c["kind"] == "ref" else "progressive_align" + (":hirschberg" if c.get("hirsch") else "")
+    op = ("align_to_ref" if c["kind"] == "ref" else "progressive_align") + (":hirschberg" if case_limit(c) is not None else "")
     if "exc" in ir:
         rep.violation(f"{op}:raised", dict(case=c, observed_impl=ir, broken=f"{op} raised / hung on valid sequences"))
         stats["viol"] += 1
@@ -572,12 +634,12 @@ def model_pairs(cases, impl):
     specification's score of the IMPLEMENTATION's rows (mode 2/3)"""
     terms, index = [], []
     for k, (c, ir) in enumerate(zip(cases, impl)):
-        if c["kind"] != "pair" or "exc" in ir:
+        if c["kind"] != "pair" or "exc" in ir or c.get("opts"):
             continue
         Tq, emq, _unit, _off = int_tables(c, ir["n"])
         letters = case_letters(c)
         tabs = coq_tables(Tq, emq, letters)
-        if not c.get("hirsch"):
+        if case_limit(c) is None:
             terms.append(coq_pair_case(1 if c["local"] else 0, tabs, c["a"], c["b"], letters))
             index.append((k, "align"))
         if valid_rows(ir["rows"], c["a"], c["b"], c["local"]) is None:
@@ -631,7 +693,7 @@ def compare_pair_model(c, ir, mr, dis, stats):
         ms = NEG if mr["score"][0] is None else mr["score"][0]
         if ms != mine:
             add("spec-score-of-impl-rows-differs-from-oracle", oracle=mine)
-        if abs(real(ms) - ir["score"]) > slack * max(1.0, abs(ir["score"])) and not c.get("hirsch"):
+        if abs(real(ms) - ir["score"]) > slack * max(1.0, abs(ir["score"])) and not (case_limit(c) is not None and not c["local"]):
             add("spec-score-of-impl-rows-differs-from-reported", spec_score=real(ms))
 
 
@@ -713,7 +775,9 @@ def run(tier: str, seed: int) -> int:
         if "exc" in ir:
             continue
         if c["kind"] == "pair":
-            if any("-" in r for r in ir["rows"]) or (c["local"] and len(ir["rows"][0].replace("-", "")) < len(c["a"])):
+            if ir["rows"] is None:
+                nontrivial.add(json.dumps(c, sort_keys=True))
+            elif any("-" in r for r in ir["rows"]) or (c["local"] and len(ir["rows"][0].replace("-", "")) < len(c["a"])):
                 nontrivial.add(json.dumps(c, sort_keys=True))
         elif c["kind"] == "star":
             if len(c["pw"]) >= 2 and any("-" in r for r, _ in c["pw"]):
@@ -721,6 +785,28 @@ def run(tier: str, seed: int) -> int:
         else:
             if "rows" in ir and any("-" in r for r in ir["rows"].values()):
                 nontrivial.add(json.dumps(c, sort_keys=True))
+    # (mode x threshold x option) matrix of what was actually run
+    def cell(c):
+        if c["kind"] == "pair":
+            api = "_align_pairwise(dyadic tables)" if c.get("dyadic") else \
+                "classic_align_pairwise" if c.get("api") == "classic" else "global_pairwise/local_pairwise"
+            mode = f"{api}:{'local' if c['local'] else 'global'}"
+        else:
+            mode = {"star": "pairwise_to_multiple", "ref": "align_to_ref", "prog": "progressive_align"}[c["kind"]]
+        lim = case_limit(c)
+        thr = "default" if lim is None else "0" if lim == 0 else f"small({lim})"
+        return mode, thr, c.get("optname") or "none"
+    matrix = {}
+    for c, ir in zip(cases, impl):
+        key = " | ".join(cell(c))
+        matrix.setdefault(key, dict(cases=0, raised=0))
+        matrix[key]["cases"] += 1
+        matrix[key]["raised"] += 1 if "exc" in ir else 0
+    pair_modes = [f"{api}:{lg}" for api in ("global_pairwise/local_pairwise", "classic_align_pairwise") for lg in ("global", "local")]
+    thrs = ["default", "0", f"small({SMALL_LIMIT})"]
+    wanted = [(m_, t, o) for m_ in pair_modes for t in thrs for o in ["none"] + list(OPTIONS)]
+    wanted += [(m_, t, "none") for m_ in ("align_to_ref", "progressive_align") for t in thrs]
+    empty = [" | ".join(w) for w in wanted if " | ".join(w) not in matrix]
     sample_k = next(k for k, c in enumerate(cases) if c["block"] == "random")
     rep.coverage.update(
         evaluations=len(cases), distinct_nontrivial=len(nontrivial),
@@ -740,6 +826,14 @@ def run(tier: str, seed: int) -> int:
                  "star merge: equal row lengths not proved; 'keeps each pairwise alignment' is refuted for the pinned code and unproved "
                  "for the code with proposed fix C18-1 (stmt_star_merge_keeps_pairwise_fixed): decided by the projection oracle",
                  "float log-space arithmetic and the numba kernels: compared with tolerance, not proved"],
+        mode_threshold_option_matrix=matrix, matrix_empty_cells=empty,
+        matrix_note="threshold = HIRSCHBERG_LIMIT during the call; every case with a non-default threshold is also run at the default "
+                    "and the two results compared (score; rows counted); options: see OPTIONS in harness/props/c18.py; backward+local "
+                    "is excluded on purpose (internal combination used for posteriors, scores a different model); pairwise_to_multiple "
+                    "takes no threshold (no DP)",
+        threshold_rows_identical_to_full_dp=stats.get("threshold_same_rows", 0),
+        outside_quantifier_observations=dict(use_scaling_local_suboptimal=stats.get("scaling_local_suboptimal", 0),
+                                             sample=stats.get("scaling_local_sample")),
         model_impl_disagreements=len(dis), spec_violations=stats["viol"], star_model_variant_matching_source=star_variant,
     )
     core.conclude(rep, pr, f"{len(cases)} cases against the alignment oracles", dis[:5],
